@@ -54,10 +54,15 @@ fn vec_with_capacity_checked_t<T>(remaining: Ghost<nat>, cap: usize) -> (r: Vec<
 //@   ensures:
 //@+    r matches Ok(v) ==> v@.len() == count && final(reader).remaining() == old(reader).remaining() - 8 * count,
 //@+    r.is_ok() ==> old(reader).remaining() >= 8 * count,
+//@+    // canonical form (C10): the decoded positions are STRICTLY increasing -- an unsorted list or a duplicate entry is refused, not accepted
+//@+    r matches Ok(v) ==> forall|a: int, b: int| 0 <= a < b < v@.len() ==> v@[a] < v@[b],
 //@   loop 1:
 //@+    invariant
 //@+        positions@.len() == i,
 //@+        reader.remaining() + 8 * i == old(reader).remaining(),
+//@+        forall|a: int, b: int| 0 <= a < b < positions@.len() ==> positions@[a] < positions@[b],
+//@+        i > 0 ==> positions@[i - 1] + 1 == last_pos,
+//@+        i == 0 ==> last_pos == 0,
 //@ end
 //@ canary read_segment_positions: r.is_err()
 
